@@ -117,11 +117,30 @@ def kernel_names():
     return _kernel_names
 
 
+_KERNEL_ALIASES = set()     # local names of the function being normalised that are bound, once, to a compiled kernel (fg = model.fg)
+
+
+def find_kernel_aliases(fn):
+    cnt = {}
+    for n in ast.walk(fn):
+        if isinstance(n, ast.Name) and isinstance(n.ctx, (ast.Store, ast.Del)):
+            cnt[n.id] = cnt.get(n.id, 0) + 1
+    params = {a.arg for a in fn.args.posonlyargs + fn.args.args + fn.args.kwonlyargs}
+    out = set()
+    for n in ast.walk(fn):
+        if isinstance(n, ast.Assign) and len(n.targets) == 1 and isinstance(n.targets[0], ast.Name) and cnt.get(n.targets[0].id) == 1 \
+                and n.targets[0].id not in params and isinstance(n.value, ast.Attribute) and n.value.attr in kernel_names() \
+                and dotted(n.value.value) != 'self':
+            out.add(n.targets[0].id)
+    return out
+
+
 def state_preserving_call(c):
     """a call that cannot change the attributes of the objects of the orchestration layer: pure functions and compiled kernels"""
     if is_pure(c):
         return True
-    if isinstance(c.func, ast.Attribute) and c.func.attr in kernel_names() and dotted(c.func.value) not in (None, 'self'):
+    if (isinstance(c.func, ast.Attribute) and c.func.attr in kernel_names() and dotted(c.func.value) != 'self') or \
+            (isinstance(c.func, ast.Name) and c.func.id in _KERNEL_ALIASES):
         return all(is_pure(a) or state_preserving_call(a) if isinstance(a, ast.Call) else is_pure(a) for a in list(c.args) + [k.value for k in c.keywords])
     d0 = dotted(c.func) or ''
     if d0.startswith('np.') or d0.startswith('numpy.') or d0.startswith('math.') or (isinstance(c.func, ast.Attribute) and c.func.attr in PURE_METHODS and dotted(c.func.value) not in (None, 'self')):
@@ -132,10 +151,24 @@ def state_preserving_call(c):
     return False
 
 
+def _walk_outside_lambdas(e):
+    """creating a lambda evaluates nothing but its default values: its body runs where it is called and sees the variables as they
+    are then (late binding), so the creation may be moved freely inside the scope"""
+    todo = [e]
+    while todo:
+        n = todo.pop()
+        yield n
+        if isinstance(n, ast.Lambda):
+            todo.extend(n.args.defaults)
+            todo.extend(d for d in n.args.kw_defaults if d is not None)
+        else:
+            todo.extend(ast.iter_child_nodes(n))
+
+
 def is_pure(e):
     """no side effect and no dependence on mutable state other than through the names / attributes it reads"""
-    for n in ast.walk(e):
-        if isinstance(n, (ast.Yield, ast.YieldFrom, ast.Await, ast.NamedExpr, ast.Lambda)):
+    for n in _walk_outside_lambdas(e):
+        if isinstance(n, (ast.Yield, ast.YieldFrom, ast.Await, ast.NamedExpr)):
             return False
         if isinstance(n, ast.Call):
             d = dotted(n.func)
@@ -215,6 +248,11 @@ def nnf(t):
     return t
 
 
+def _const_item(x):
+    """d['key'] / obj.attr['key']: may raise, so canonical_decision only accepts it when every test of the decision reads this same item"""
+    return isinstance(x, ast.Subscript) and isinstance(x.slice, ast.Constant) and (isinstance(x.value, ast.Name) or dotted(x.value) is not None)
+
+
 def simple_operand(v):
     """an operand of and/or whose evaluation cannot raise or have effects, so that it may be reordered"""
     if isinstance(v, ast.Name):
@@ -222,7 +260,7 @@ def simple_operand(v):
     if isinstance(v, ast.UnaryOp) and isinstance(v.op, ast.Not):
         return simple_operand(v.operand)
     if isinstance(v, ast.Compare) and len(v.ops) == 1 and isinstance(v.ops[0], (ast.Is, ast.IsNot, ast.Eq, ast.NotEq)):
-        return all(isinstance(x, (ast.Name, ast.Constant)) or dotted(x) for x in [v.left] + v.comparators)
+        return all(isinstance(x, (ast.Name, ast.Constant)) or dotted(x) or _const_item(x) for x in [v.left] + v.comparators)
     if isinstance(v, ast.Attribute):
         return dotted(v) is not None
     return False
@@ -357,6 +395,10 @@ def canonical_decision(st, block_fn):
     collect(tree)
     if len(atoms) > 6 and not all(eq_const_static(v) for v in atoms.values()):
         return None
+    if any(isinstance(x, ast.Subscript) for v in atoms.values() for x in ast.walk(v)):
+        # a subscript may raise: the first test evaluated must be the same whatever the order, i.e. one subject for all tests
+        if not all(eq_const_static(v) for v in atoms.values()) or len({dump(v.left) for v in atoms.values()}) != 1:
+            return None
     if len(atoms) > 26:
         return None
     order = sorted(atoms)
@@ -411,10 +453,21 @@ class Normalizer:
 
     # ------------------------------------------------------------------
     def run(self):
+        global _KERNEL_ALIASES
+        saved = _KERNEL_ALIASES
+        try:
+            return self._run()
+        finally:
+            _KERNEL_ALIASES = saved
+
+    def _run(self):
+        global _KERNEL_ALIASES
         fn = self.fn
         fn.decorator_list = []
         fn.returns = None
+        _KERNEL_ALIASES = find_kernel_aliases(fn)
         self.split_rebound_params(fn)
+        self.list_truthiness(fn)
         for _ in range(6):
             before = dump(fn)
             fn.body = self.block(fn.body)
@@ -465,6 +518,33 @@ class Normalizer:
                 break
         self.fn = fn
         return fn
+
+    def list_truthiness(self, fn):
+        """in a test position, len(X) > 0 / len(X) != 0 / len(X) >= 1 -> X and len(X) == 0 -> not X, for an X that the function itself
+        treats as a list (it calls X.append / X.extend: ndarrays, whose truth value is not their length, have neither)"""
+        listish = {dotted(c.func.value) for c in ast.walk(fn) if isinstance(c, ast.Call) and isinstance(c.func, ast.Attribute)
+                   and c.func.attr in ('append', 'extend') and dotted(c.func.value)}
+        if not listish:
+            return
+
+        def conv(t):
+            if isinstance(t, ast.BoolOp):
+                t.values = [conv(v) for v in t.values]
+                return t
+            if isinstance(t, ast.UnaryOp) and isinstance(t.op, ast.Not):
+                t.operand = conv(t.operand)
+                return t
+            if isinstance(t, ast.Compare) and len(t.ops) == 1 and isinstance(t.left, ast.Call) and dotted(t.left.func) == 'len' and len(t.left.args) == 1 \
+                    and dotted(t.left.args[0]) in listish and isinstance(t.comparators[0], ast.Constant) and type(t.comparators[0].value) is int:
+                k, op = t.comparators[0].value, type(t.ops[0])
+                if (op, k) in ((ast.Gt, 0), (ast.NotEq, 0), (ast.GtE, 1)):
+                    return t.left.args[0]
+                if (op, k) in ((ast.Eq, 0), (ast.LtE, 0), (ast.Lt, 1)):
+                    return ast.UnaryOp(op=ast.Not(), operand=t.left.args[0])
+            return t
+        for n in ast.walk(fn):
+            if isinstance(n, (ast.If, ast.While, ast.IfExp)):
+                n.test = conv(n.test)
 
     def drop_rederivations(self, fn):
         """a top-level statement that re-executes, unchanged, a statement of self._rebuild() after self._rebuild() (or
@@ -695,6 +775,7 @@ class Normalizer:
         # progress messages of compmech.logger are not behaviour any of the properties speaks about
         stmts = [s for s in stmts if not (isinstance(s, ast.Expr) and isinstance(s.value, ast.Call) and dotted(s.value.func) in ('msg', 'log', 'warn')
                                           and all(is_pure(a) for a in list(s.value.args) + [k.value for k in s.value.keywords]))]
+        stmts = self.thread_flags(stmts)
         i = 0
         while i < len(stmts):
             st = stmts[i]
@@ -763,6 +844,14 @@ class Normalizer:
                 stmts = stmts[:i + 1] + rest
                 i += 1
                 continue
+            if isinstance(st, ast.For) and st.orelse and rest and always_exits(st.orelse) and len(st.body) == 1 and isinstance(st.body[0], ast.If) \
+                    and not st.body[0].orelse and st.body[0].body and isinstance(st.body[0].body[-1], ast.Break) \
+                    and not any(isinstance(n, (ast.Break, ast.Continue)) for b in st.body[0].body[:-1] for n in ast.walk(b)) \
+                    and not any(isinstance(n, (ast.Break, ast.Continue)) and not _inside_loop(rest, n) for b in rest for n in ast.walk(b)):
+                # search loop whose else-branch leaves: what follows the loop is reached through the `break` only and belongs in front of it
+                st.body[0].body = st.body[0].body[:-1] + rest + [st.body[0].body[-1]]
+                stmts = stmts[:i + 1]
+                rest = []
             if isinstance(st, (ast.For, ast.While)):
                 if isinstance(st, ast.While):
                     st.test = canon_test(st.test)
@@ -810,6 +899,47 @@ class Normalizer:
                 out.append(st)
             i += 1
         return out
+
+    def thread_flags(self, stmts):
+        """flag = K0; if c: (... flag = K1) else: (...); if flag: A else: B   ->   the second `if` is decided at the end of each branch
+        of the first one and its branch is appended there (jump threading over a boolean flag); the flag assignments that are left
+        are dead stores when nothing else reads the flag"""
+        stmts = list(stmts)
+        i = 0
+        while i + 1 < len(stmts):
+            a, b = stmts[i], stmts[i + 1]
+            if isinstance(a, ast.If) and isinstance(b, ast.If):
+                t, neg = b.test, False
+                if isinstance(t, ast.UnaryOp) and isinstance(t.op, ast.Not):
+                    t, neg = t.operand, True
+                if isinstance(t, ast.Name):
+                    flag = t.id
+                    init = None
+                    if i > 0 and isinstance(stmts[i - 1], ast.Assign) and len(stmts[i - 1].targets) == 1 and isinstance(stmts[i - 1].targets[0], ast.Name) \
+                            and stmts[i - 1].targets[0].id == flag and isinstance(stmts[i - 1].value, ast.Constant) and isinstance(stmts[i - 1].value.value, bool):
+                        init = stmts[i - 1].value.value
+                    v1, v2 = self.flag_at_end(a.body, flag, init), self.flag_at_end(a.orelse, flag, init)
+                    if v1 is not None and v2 is not None and not any(isinstance(n, ast.Name) and n.id == flag for n in ast.walk(a.test)):
+                        if v1 != 'exit':
+                            a.body = list(a.body) + copy.deepcopy(b.body if (v1 != neg) else b.orelse)
+                        if v2 != 'exit':
+                            a.orelse = list(a.orelse) + copy.deepcopy(b.body if (v2 != neg) else b.orelse)
+                        del stmts[i + 1]
+                        continue
+            i += 1
+        return stmts
+
+    def flag_at_end(self, branch, flag, init):
+        if always_exits(branch):
+            return 'exit'
+        val = init
+        for st in branch:
+            if isinstance(st, ast.Assign) and len(st.targets) == 1 and isinstance(st.targets[0], ast.Name) and st.targets[0].id == flag \
+                    and isinstance(st.value, ast.Constant) and isinstance(st.value.value, bool):
+                val = st.value.value
+            elif any(isinstance(n, ast.Name) and n.id == flag and isinstance(n.ctx, (ast.Store, ast.Del)) for n in ast.walk(st)):
+                return None
+        return val
 
     def expand_table_dispatch(self, st):
         """if E in {k1: v1, k2: v2, ...}: BODY(table[E]) else: ELSE   ->   if E == k1: BODY(v1) elif E == k2: BODY(v2) ... else: ELSE
@@ -989,17 +1119,26 @@ class Normalizer:
                 and all(isinstance(a, ast.Constant) and isinstance(a.value, int) for a in it.args):
             lo, hi = (0, it.args[0].value) if len(it.args) == 1 else (it.args[0].value, it.args[1].value)
             it = ast.Tuple(elts=[ast.Constant(value=k) for k in range(lo, hi)], ctx=ast.Load())
-        if not isinstance(it, (ast.Tuple, ast.List)) or not (1 <= len(it.elts) <= 8) or st.orelse:
+        elif isinstance(it, ast.Call) and dotted(it.func) == 'zip' and not it.keywords and it.args and all(isinstance(a, (ast.Tuple, ast.List)) for a in it.args) \
+                and len({len(a.elts) for a in it.args}) == 1 and not any(isinstance(e, ast.Starred) for a in it.args for e in a.elts):
+            it = ast.Tuple(elts=[ast.Tuple(elts=[a.elts[k] for a in it.args], ctx=ast.Load()) for k in range(len(it.args[0].elts))], ctx=ast.Load())
+        if not isinstance(it, (ast.Tuple, ast.List)) or not (1 <= len(it.elts) <= 8):
             return None
-        st = ast.For(target=st.target, iter=it, body=st.body, orelse=[])
+        search = None
+        if len(st.body) == 1 and isinstance(st.body[0], ast.If) and not st.body[0].orelse and st.body[0].body and isinstance(st.body[0].body[-1], ast.Break) \
+                and not any(isinstance(n, (ast.Break, ast.Continue, ast.For, ast.While)) for b in st.body[0].body[:-1] for n in ast.walk(b)):
+            # search loop: for T in (e1, e2): if C(T): S(T); break  else: E   ->   if C(e1): S(e1) elif C(e2): S(e2) else: E
+            search = st.body[0]
+        elif st.orelse:
+            return None
+        orelse = st.orelse
+        st = ast.For(target=st.target, iter=it, body=st.body if search is None else [ast.If(test=search.test, body=search.body[:-1] or [ast.Pass()], orelse=[])], orelse=[])
         if any(isinstance(n, (ast.Break, ast.Continue)) for b in st.body for n in ast.walk(b)):
             return None
         tnames = [x.id for x in ast.walk(st.target) if isinstance(x, ast.Name)]
-        if any(isinstance(n, ast.Name) and n.id in tnames and isinstance(n.ctx, ast.Store) for b in st.body for n in ast.walk(b)):
-            return None
-        if any(self.read_anywhere_else(nm, st) for nm in tnames):
-            return None
-        out = []
+        subst = not any(isinstance(n, ast.Name) and n.id in tnames and isinstance(n.ctx, ast.Store) for b in st.body for n in ast.walk(b)) \
+            and not any(self.read_anywhere_else(nm, st) for nm in tnames)
+        maps = []
         for e in st.iter.elts:
             if isinstance(st.target, ast.Name):
                 mp = {st.target.id: e}
@@ -1007,12 +1146,89 @@ class Normalizer:
                     and all(isinstance(x, ast.Name) for x in st.target.elts):
                 mp = {x.id: y for x, y in zip(st.target.elts, e.elts)}
             else:
+                mp = None
+            maps.append(mp)
+        # an element is evaluated when the sequence is built, i.e. before the first iteration: it may only be written where the loop
+        # variable stands if nothing the loop body does can change its value
+        if subst and not (all(mp is not None for mp in maps) and all(is_pure(v) and self.stable_in(v, st.body) for mp in maps for v in mp.values())):
+            subst = False
+        if not subst:
+            if any(isinstance(x, ast.Starred) for x in st.iter.elts) or not all(isinstance(x, (ast.Name, ast.Tuple, ast.List)) for x in [st.target]):
                 return None
-            if not all(is_pure(v) for v in mp.values()):
+            if not all(isinstance(x, ast.Name) for x in ast.walk(st.target) if not isinstance(x, (ast.Tuple, ast.List, ast.expr_context))):
                 return None
-            for b in st.body:
-                out.append(inline._Subst(mp, {}).visit(copy.deepcopy(b)))
+        out = []
+        seqname = None
+        if not subst:
+            # explicit form: SEQ = (e1, e2, ...); T = SEQ[0]; BODY; T = SEQ[1]; BODY ...   (later passes simplify what is safe to simplify)
+            self._unroll_count = getattr(self, '_unroll_count', 0) + 1
+            seqname = 'seq__u%d' % self._unroll_count
+            pre = [ast.Assign(targets=[ast.Name(id=seqname, ctx=ast.Store())], value=copy.deepcopy(st.iter))]
+        groups = []
+        for k, mp in enumerate(maps):
+            grp = []
+            if subst:
+                for b in st.body:
+                    grp.append(inline._Subst(mp, {}).visit(copy.deepcopy(b)))
+            else:
+                grp.append(ast.Assign(targets=[copy.deepcopy(st.target)], value=ast.Subscript(value=ast.Name(id=seqname, ctx=ast.Load()), slice=ast.Constant(value=k), ctx=ast.Load())))
+                grp += [copy.deepcopy(b) for b in st.body]
+            groups.append(grp)
+        if search is not None:
+            chain = list(orelse)
+            for grp in reversed(groups):
+                grp[-1].orelse = chain
+                chain = grp
+            out = chain
+        else:
+            out = [x for grp in groups for x in grp]
+        if not subst:
+            out = pre + out
         return out
+
+    def stable_in(self, e, body):
+        """nothing in `body` can change the value of the pure expression e: no re-binding of a name it reads and, when it reads state
+        (attributes, items, results of calls on objects), no store to an attribute / item and no call that may write that state"""
+        names, attrs = reads(e)
+        has_state = bool(attrs) or any(isinstance(n, (ast.Subscript, ast.Call)) for n in _walk_outside_lambdas(e))
+        for b in body:
+            for n in ast.walk(b):
+                if isinstance(n, ast.Name) and isinstance(n.ctx, (ast.Store, ast.Del)) and n.id in names:
+                    return False
+                if not has_state:
+                    continue
+                if isinstance(n, (ast.Attribute, ast.Subscript)) and isinstance(n.ctx, (ast.Store, ast.Del)):
+                    if isinstance(n, ast.Subscript) and isinstance(n.value, ast.Name) and n.value.id not in names and not any(a.split('.')[0] == n.value.id for a in attrs):
+                        continue        # an item of another local container
+                    return False
+                if isinstance(n, ast.Call) and not state_preserving_call(n):
+                    wr = self.call_writes(n)
+                    if isinstance(n.func, ast.Attribute) and n.func.attr in ('append', 'extend', 'insert') and isinstance(n.func.value, ast.Name) \
+                            and n.func.value.id not in names and not any(a.split('.')[0] == n.func.value.id for a in attrs) \
+                            and all(is_pure(a) for a in n.args) and not n.keywords:
+                        continue        # growing another local list
+                    if '*' in wr and isinstance(n.func, ast.Attribute) and dotted(n.func.value) not in (None, 'self'):
+                        # a method of another object: by the effect summaries of every analysed class that defines a method of this
+                        # name, the attribute names it writes; none of them is an attribute the expression reads
+                        geff = self.sigdb.get(('effects_any',), {})
+                        cands = geff.get(n.func.attr)
+                        if cands:
+                            w = set()
+                            for _, _, ww in cands:
+                                w |= set(ww)
+                            read_attrs = {p_ for a in attrs for p_ in a.split('.')[1:]}
+                            args_pure = all(is_pure(a) for a in list(n.args) + [k.value for k in n.keywords])
+                            if '*' not in w and not (w & read_attrs) and args_pure and not any(isinstance(x, (ast.Subscript, ast.Call)) for x in _walk_outside_lambdas(e)):
+                                continue
+                    if '*' in wr:
+                        return False
+                    for a in attrs:
+                        parts = a.split('.')
+                        if parts[0] != 'self' or (len(parts) > 1 and parts[1] in wr):
+                            return False
+                    if any(isinstance(x, (ast.Subscript, ast.Call)) for x in _walk_outside_lambdas(e)) and wr:
+                        return False
+        return True
 
     def loop_idiom(self, st):
         # for t in S: a, b, c = t  (t not used otherwise)  ->  for a, b, c in S
@@ -1119,8 +1335,10 @@ class Normalizer:
                         continue        # containers have identity: not substituted
                     if isinstance(st.value, ast.Dict) and self.container_mutated_or_escapes(fn, v):
                         continue
-                    if any(isinstance(n, (ast.Lambda, ast.FunctionDef)) and n is not fn for n in ast.walk(fn)):
+                    if any(isinstance(n, ast.FunctionDef) and n is not fn for n in ast.walk(fn)):
                         continue        # closures capture late
+                    if any(isinstance(n, ast.Lambda) and any(isinstance(x, ast.Name) and x.id == v for x in ast.walk(n)) for n in ast.walk(fn)):
+                        continue        # a use inside a lambda is evaluated when the lambda is called
                     D = cfg.node_of_stmt(st)
                     if D is None:
                         continue
@@ -1145,10 +1363,14 @@ class Normalizer:
                     meta = {a for a in attrs if a.split('.')[-1] in ('shape', 'dtype', 'ndim') and a.count('.') == 1 and a.split('.')[0] != 'self'}
                     only_meta_subs = all(isinstance(n.value, ast.Attribute) and dotted(n.value) in meta and isinstance(n.slice, ast.Constant)
                                          for n in ast.walk(st.value) if isinstance(n, ast.Subscript))
-                    if meta and only_meta_subs and not any(isinstance(n, ast.Call) for n in ast.walk(st.value)):
+                    if meta and only_meta_subs and (not any(isinstance(n, ast.Call) for n in ast.walk(st.value)) or self.immutable_scalar_expr(st.value)):
                         attrs = attrs - meta
-                    has_sub = any(isinstance(n, ast.Subscript) for n in ast.walk(st.value)) and not (meta and only_meta_subs)
-                    state = bool(attrs) or has_sub or any(isinstance(n, ast.Call) for n in ast.walk(st.value))
+                    has_sub = any(isinstance(n, ast.Subscript) for n in _walk_outside_lambdas(st.value)) and not (meta and only_meta_subs)
+                    if any(isinstance(n, ast.Lambda) for n in ast.walk(st.value)):
+                        # what a lambda body reads is read when it is called, wherever the lambda was created
+                        attrs = {a for a in attrs if any(isinstance(n, ast.Attribute) and dotted(n) == a for n in _walk_outside_lambdas(st.value))}
+                    state = bool(attrs) or has_sub or (any(isinstance(n, ast.Call) for n in _walk_outside_lambdas(st.value))
+                                                       and not self.immutable_scalar_expr(st.value))
                     killers = set()
                     for k, n in cfg.nodes.items():
                         if n is None or k == D:
@@ -1207,6 +1429,8 @@ class Normalizer:
                                     ok = False
                                 continue
                             if k in after_D and U in cfg.reachable(k, avoid={D}):
+                                if self.iter_use_safe(cfg, U, D, k, u):
+                                    continue
                                 ok = False
                                 break
                         if not ok:
@@ -1224,6 +1448,48 @@ class Normalizer:
                     break
             if not done:
                 break
+
+    def iter_use_safe(self, cfg, U, D, k, use):
+        """the iterable of a for statement is evaluated once, on entry: a statement of the loop's own body that changes what the
+        expression reads does not matter, unless the loop can be entered again without passing the definition"""
+        loop = cfg.nodes[U]
+        if not isinstance(loop, ast.For) or not any(x is use for x in ast.walk(loop.iter)):
+            return False
+        inside = {id(x) for b in loop.body + loop.orelse for x in ast.walk(b)}
+        B = {i for i, n in cfg.nodes.items() if n is not None and id(n) in inside}
+        if k not in B or D in B:
+            return False
+        outside = {y for b in B | {U} for y in cfg.succ[b] if y not in B and y != U}
+        return not any(U in cfg.reachable(y, avoid={D}) for y in outside)
+
+    def immutable_scalar_expr(self, e):
+        """min / max / int / float / abs / round and arithmetic over constants, shape metadata (X.shape[k], never changed by a call: the
+        arrays are not resized in place) and parameters whose default is a number (immutable objects): no call can change what it reads"""
+        numeric = getattr(self, '_numeric_params', None)
+        if numeric is None:
+            a = self.fn.args
+            pos = a.posonlyargs + a.args
+            numeric = {p.arg for p, d in zip(pos[len(pos) - len(a.defaults):], a.defaults)
+                       if isinstance(d, ast.Constant) and isinstance(d.value, (int, float)) and not isinstance(d.value, bool)}
+            numeric |= {p.arg for p, d in zip(a.kwonlyargs, a.kw_defaults)
+                        if isinstance(d, ast.Constant) and isinstance(d.value, (int, float)) and not isinstance(d.value, bool)}
+            self._numeric_params = numeric
+
+        def ok(x):
+            if isinstance(x, ast.Constant):
+                return isinstance(x.value, (int, float))
+            if isinstance(x, ast.Name):
+                return x.id in numeric
+            if isinstance(x, ast.Subscript):
+                return isinstance(x.value, ast.Attribute) and x.value.attr == 'shape' and isinstance(x.value.value, ast.Name) and isinstance(x.slice, ast.Constant)
+            if isinstance(x, ast.BinOp):
+                return isinstance(x.op, (ast.Add, ast.Sub, ast.Mult, ast.FloorDiv, ast.Div)) and ok(x.left) and ok(x.right)
+            if isinstance(x, ast.UnaryOp):
+                return isinstance(x.op, (ast.USub, ast.UAdd)) and ok(x.operand)
+            if isinstance(x, ast.Call):
+                return dotted(x.func) in ('min', 'max', 'int', 'float', 'abs', 'round') and not x.keywords and all(ok(y) for y in x.args)
+            return False
+        return ok(e)
 
     def container_mutated_or_escapes(self, fn, v):
         """a local dict literal that is only ever indexed / iterated / tested for membership is a constant table"""
@@ -1716,6 +1982,20 @@ class Normalizer:
                 blk.append(ast.Pass())
 
 
+def _inside_loop(stmts, node):
+    """node sits inside a for / while statement of stmts (so a break / continue there belongs to that loop)"""
+    for b in stmts:
+        for lp in ast.walk(b):
+            if isinstance(lp, (ast.For, ast.While)) and any(x is node for x in ast.walk(lp)) and lp is not node:
+                return True
+    return False
+
+
+def _cheap_read(v):
+    """a name, constant or attribute chain: reading it twice is the same as reading it once"""
+    return isinstance(v, ast.Constant) or dotted(v) is not None
+
+
 def cost(e):
     return sum(1 for _ in ast.walk(e))
 
@@ -1867,10 +2147,52 @@ class ExprCanon(ast.NodeTransformer):
     def visit_IfExp(self, n):
         self.generic_visit(n)
         n.test = canon_test(n.test)
+        if isinstance(n.body, ast.Constant) and isinstance(n.orelse, ast.Constant) and isinstance(n.body.value, bool) and isinstance(n.orelse.value, bool):
+            # False if c else True == not c;  True if c else False == bool(c) (c itself when it is a comparison / negation)
+            if n.body.value == n.orelse.value:
+                if is_pure(n.test):
+                    return n.body
+            elif n.body.value is False:
+                return canon_test(negate(n.test))
+            elif isinstance(n.test, (ast.Compare, ast.UnaryOp)) and (not isinstance(n.test, ast.UnaryOp) or isinstance(n.test.op, ast.Not)):
+                return n.test
         swap, nt = prefer_negated(n.test)
         if swap:
             n.test, n.body, n.orelse = nt, n.orelse, n.body
         return n
+
+    def unroll_comp(self, n):
+        """[E(x) for x in (a, b, c)] -> [E(a), E(b), E(c)] (one generator over a literal of at most eight pure elements, no condition)"""
+        if len(n.generators) != 1:
+            return None
+        g = n.generators[0]
+        it = g.iter
+        if isinstance(it, ast.Call) and dotted(it.func) == 'enumerate' and len(it.args) == 1 and not it.keywords and isinstance(it.args[0], (ast.Tuple, ast.List)):
+            it = ast.Tuple(elts=[ast.Tuple(elts=[ast.Constant(value=k), e], ctx=ast.Load()) for k, e in enumerate(it.args[0].elts)], ctx=ast.Load())
+        if isinstance(it, ast.Call) and dotted(it.func) == 'zip' and not it.keywords and it.args and all(isinstance(a, (ast.Tuple, ast.List)) for a in it.args) \
+                and len({len(a.elts) for a in it.args}) == 1:
+            it = ast.Tuple(elts=[ast.Tuple(elts=[a.elts[k] for a in it.args], ctx=ast.Load()) for k in range(len(it.args[0].elts))], ctx=ast.Load())
+        if g.ifs or g.is_async or not isinstance(it, (ast.Tuple, ast.List)) or not (1 <= len(it.elts) <= 8) or any(isinstance(e, ast.Starred) for e in it.elts):
+            return None
+        out = []
+        for e in it.elts:
+            if isinstance(g.target, ast.Name):
+                mp = {g.target.id: e}
+            elif isinstance(g.target, (ast.Tuple, ast.List)) and isinstance(e, (ast.Tuple, ast.List)) and len(e.elts) == len(g.target.elts) \
+                    and all(isinstance(x, ast.Name) for x in g.target.elts):
+                mp = {x.id: y for x, y in zip(g.target.elts, e.elts)}
+            else:
+                return None
+            if not all(is_pure(v) for v in mp.values()):
+                return None
+            if any(cost(v) > 2 and sum(isinstance(x, ast.Name) and x.id == k for x in ast.walk(n.elt)) > 1 and not _cheap_read(v) for k, v in mp.items()):
+                return None
+            out.append(inline._Subst(mp, {}).visit(copy.deepcopy(n.elt)))
+        return ast.List(elts=out, ctx=ast.Load())
+
+    def visit_ListComp(self, n):
+        self.generic_visit(n)
+        return self.unroll_comp(n) or n
 
     def visit_Attribute(self, n):
         self.generic_visit(n)
@@ -1899,6 +2221,14 @@ class ExprCanon(ast.NodeTransformer):
     def visit_Call(self, n):
         self.generic_visit(n)
         d = dotted(n.func)
+        # (lambda: E)() -> E ; (lambda a, b: E)(x, y) -> E[a := x, b := y] for pure, cheap x, y
+        if isinstance(n.func, ast.Lambda) and not n.keywords and not n.func.args.vararg and not n.func.args.kwarg and not n.func.args.kwonlyargs \
+                and not n.func.args.defaults and len(n.args) == len(n.func.args.args) and not any(isinstance(a, ast.Starred) for a in n.args) \
+                and all(is_pure(a) and (cost(a) <= 2 or sum(isinstance(x, ast.Name) and x.id == p.arg for x in ast.walk(n.func.body)) <= 1)
+                        for a, p in zip(n.args, n.func.args.args)) \
+                and not any(isinstance(x, ast.Lambda) for x in ast.walk(n.func.body)):
+            mp = {p.arg: a for p, a in zip(n.func.args.args, n.args)}
+            return inline._Subst(mp, {}).visit(copy.deepcopy(n.func.body)) if mp else n.func.body
         # f(a if c else b) -> f(a) if c else f(b)   (f pure, a single conditional argument)
         conds = [k for k, a in enumerate(n.args) if isinstance(a, ast.IfExp)]
         if len(conds) == 1 and not n.keywords and is_pure(n) and cost(n) < 40:
@@ -1932,6 +2262,22 @@ class ExprCanon(ast.NodeTransformer):
                     return ast.Constant(value=getattr(sv, n.func.attr)(args[0]))
             except Exception:
                 pass
+        # f(*(a, b), c) -> f(a, b, c)
+        if any(isinstance(a, ast.Starred) and isinstance(a.value, (ast.Tuple, ast.List)) and not any(isinstance(e, ast.Starred) for e in a.value.elts) for a in n.args):
+            args = []
+            for a in n.args:
+                if isinstance(a, ast.Starred) and isinstance(a.value, (ast.Tuple, ast.List)) and not any(isinstance(e, ast.Starred) for e in a.value.elts):
+                    args += list(a.value.elts)
+                else:
+                    args.append(a)
+            n.args = args
+        # tuple(<literal>) / list(<literal>) / tuple(unrolled comprehension)
+        if d in ('tuple', 'list') and len(n.args) == 1 and not n.keywords:
+            a = n.args[0]
+            if isinstance(a, ast.GeneratorExp):
+                a = self.unroll_comp(a) or a
+            if isinstance(a, (ast.Tuple, ast.List)) and not any(isinstance(e, ast.Starred) for e in a.elts):
+                return ast.Tuple(elts=list(a.elts), ctx=ast.Load()) if d == 'tuple' else ast.List(elts=list(a.elts), ctx=ast.Load())
         # len(<literal sequence>) -> constant
         if d == 'len' and len(n.args) == 1 and isinstance(n.args[0], (ast.Tuple, ast.List)) and not any(isinstance(e, ast.Starred) for e in n.args[0].elts):
             return ast.Constant(value=len(n.args[0].elts))
